@@ -1,22 +1,42 @@
 /-
-Line-protocol driver for C12 (Model/ReadCache.lean).  The cache store is the
-driver's state; `reset` empties it.
+Line-protocol driver for C12 (Model/ReadCache.lean, Model/ReadCacheX.lean).
 
   reset
   read <avail> <grouped 0|1> <req> <its> <rl> <restart|-1> <split 0|1>
+      (Model/ReadCache.lean; the cache store is the state, `reset` empties it)
       avail  = r:itmin:itmax,...   (the catalogued restarts, dictionary order)
       req    = requested names `;`-separated, each the `,`-separated ids of its
                scalar components (a tensor has several)
       its    = `,`-separated iterations as given by the caller
+  world <restart>;<restart>;...
+      (Model/ReadCacheX.lean; empties the cache AND the catalogue)
+      restart = num:lo-hi:chk:grouped:varavail:has:chas
+        lo-hi    'its available' (`-` = none)
+        chk      'checkpoints': `+`-separated, `e` = [], `-` = no entry
+        grouped  0|1
+        varavail 'var available': names `|`-separated, each the `,`-separated ids of
+                 its components; `-` = the restart has no 3D output
+        has      `,`-separated ids of the scalar variables its 3D files hold (`e` = none)
+        chas     the same for its checkpoint files
+  callx <skip_last 0|1> <req|-> <its> <rl> <restart|-1> <split 0|1> <usechk 0|1>
+      req `-` = vars=[]
 Source: the block of variable v at iteration i, level l, restart R is the
 number ((v*4096 + i)*16 + l)*8 + R (v = 0 for the time), `it` datasets hold i.
+Checkpoint data: the same with R+4 for the blocks and i+2000 for the time; a
+checkpoint holds the variables of `chas`; a variable it does not hold: the reader raises.
 
-Output: `ok <rows> # <store>`; rows `;`-separated `it:R:name=val,name=val`
+Output of `read`: `ok <rows> # <store>`; rows `;`-separated `it:R:name=val,name=val`
 (`-` = None); store entries ` `-separated `R/it/name/rl=val` in dictionary
 order (the harness compares them as a set); `err` = the call raises.
+Output of `callx`: the same followed by ` # <catalogue> # old=<same|diff|na>`:
+the catalogued restarts `,`-separated, and whether Model/ReadCache.lean (the model
+of the theorems of Props/C12.lean) gives the same rows and cache on the calls of
+its domain (explicit names, no checkpoints, every restart read holds every
+requested component and has the same layout, something is returned).
 -/
 import AurelVerif.Model.ReadCache
-open AurelVerif.Chunks AurelVerif.ReadCache
+import AurelVerif.Model.ReadCacheX
+open AurelVerif.Chunks AurelVerif.ReadCache AurelVerif.Restarts AurelVerif.ReadCacheX
 
 def srcNat (k : DKey) : Nat :=
   let v := match k.name with
@@ -48,25 +68,114 @@ def showRow (r : Row Nat) : String :=
 def showStore (st : Store Nat) : String :=
   " ".intercalate (st.map fun kv => s!"{kv.1.restart}/{kv.1.it}/{nameStr kv.1.name}/{kv.1.rl}={kv.2}")
 
-def step (store : Store Nat) (line : String) : Store Nat × String :=
+/-- `num:lo-hi:chk:grouped:varavail:has:chas` -/
+def parseRestart (s : String) : Option (RInfo × List Nat × List Nat) :=
+  match s.splitOn ":" with
+  | [num, range, chk, grouped, va, has, chas] =>
+    match num.toNat?, (if has == "e" then some [] else nats has ","), (if chas == "e" then some [] else nats chas ",") with
+    | some num, some has, some chas =>
+      let range : Option (Option (Nat × Nat)) :=
+        if range == "-" then some none
+        else match nats range "-" with
+          | some [a, b] => some (some (a, b))
+          | _ => none
+      let chk : Option (Option (List Nat)) :=
+        if chk == "-" then some none else if chk == "e" then some (some []) else (nats chk "+").map some
+      let va : Option (Option (List (List Nat))) :=
+        if va == "-" then some none else ((va.splitOn "|").mapM fun n => nats n ",").map some
+      match range, chk, va with
+      | some range, some chk, some va => some (⟨⟨num, range, chk⟩, grouped == "1", va⟩, has, chas)
+      | _, _, _ => none
+    | _, _, _ => none
+  | _ => none
+
+/-- the checkpoint reader of the driver -/
+def chkReadNat (hasTab : List (Nat × List Nat)) (R : Nat) (var : List (List Nat)) (its : List Nat) (rl : Nat) :
+    Option (Tab Nat) :=
+  let comps := var.flatten.eraseDups
+  let held := ((hasTab.find? fun p => p.1 == R).map (·.2)).getD []
+  if comps.all fun c => held.contains c then
+    let it := sortedSet its
+    some ⟨it, (DName.t, it.map fun i => some (srcNat ⟨R, i + 2000, DName.t, rl⟩)) ::
+      comps.map fun c => (DName.var c, it.map fun i => some (srcNat ⟨R + 4, i, DName.var c, rl⟩))⟩
+  else none
+
+def mkWorld (rs : List (RInfo × List Nat × List Nat)) : World Nat :=
+  let hasTab := rs.map fun p => (p.1.cat.num, p.2.1)
+  let chasTab := rs.map fun p => (p.1.cat.num, p.2.2)
+  { restarts := rs.map Prod.fst, src := srcNat, ofIt := id,
+    has := fun R c => (((hasTab.find? fun p => p.1 == R).map (·.2)).getD []).contains c,
+    chkRead := chkReadNat chasTab }
+
+/-- does Model/ReadCache.lean agree on this call? (`na`: outside its domain) -/
+def oldAgrees (w : World Nat) (done' : List Nat) (c : CallX) (store : Store Nat)
+    (res : Option (List (Row Nat))) (store' : Store Nat) : String :=
+  let cats := catsOf w done'
+  let infos := done'.filterMap w.info
+  let sits := sortedSet c.its
+  match todoX cats false c.restart sits, res with
+  | some todo, some (r0 :: rows) =>
+    let active := todo.filter fun rt => !rt.2.isEmpty
+    let complete := active.all fun rt => c.req.flatten.all fun comp => w.has rt.1 comp
+    let grouped := (infos.head?.map (·.grouped)).getD false
+    let uniform := infos.all fun ri => ri.grouped == grouped && ri.varAvail.isSome && ri.cat.range.isSome
+    if c.usechk || c.req.isEmpty || !complete || !uniform then "na"
+    else
+      let avail : List Avail := infos.map fun ri => (ri.cat.num, (ri.cat.range.getD (0, 0)).1, (ri.cat.range.getD (0, 0)).2)
+      match readData srcNat id avail grouped c.req c.its c.rl c.restart c.split store with
+      | some (orows, ostore) =>
+        -- the old rows list the columns of their own restart; with every component held they are the union
+        let same := orows.map (fun r => (r.1, r.2.1)) == (r0 :: rows).map (fun r => (r.1, r.2.1)) &&
+          (orows.zip (r0 :: rows)).all (fun p => p.1.2.2.all fun cell => p.2.2.2.contains cell) &&
+          (orows.zip (r0 :: rows)).all (fun p => p.2.2.2.all fun cell => p.1.2.2.contains cell) &&
+          ostore.all (fun kv => store'.get? kv.1 == some kv.2) && store'.all (fun kv => ostore.get? kv.1 == some kv.2)
+        if same then "same" else "diff"
+      | none => "diff"
+  | _, _ => "na"
+
+structure DState where
+  store : Store Nat := []
+  world : World Nat := mkWorld []
+  done : List Nat := []
+
+def step (s : DState) (line : String) : DState × String :=
   match (line.trimAscii.toString.splitOn " ") with
-  | ["reset"] => ([], "ok")
+  | ["reset"] => ({ s with store := [], done := [] }, "ok")
   | ["read", av, grouped, req, its, rl, restart, split] =>
     match (av.splitOn ",").mapM parseAvail, (req.splitOn ";").mapM (fun s => nats s ","), nats its ",",
           rl.toNat? with
     | some av, some req, some its, some rl =>
       let restart := if restart == "-1" then none else restart.toNat?
-      match readData srcNat id av (grouped == "1") req its rl restart (split == "1") store with
-      | some (rows, store') => (store', "ok " ++ ";".intercalate (rows.map showRow) ++ " # " ++ showStore store')
-      | none => (store, "err # " ++ showStore store)
-    | _, _, _, _ => (store, "bad-op")
-  | _ => (store, "bad-op")
+      match readData srcNat id av (grouped == "1") req its rl restart (split == "1") s.store with
+      | some (rows, store') =>
+        ({ s with store := store' }, "ok " ++ ";".intercalate (rows.map showRow) ++ " # " ++ showStore store')
+      | none => (s, "err # " ++ showStore s.store)
+    | _, _, _, _ => (s, "bad-op")
+  | ["world", rs] =>
+    match (if rs == "-" then some [] else (rs.splitOn ";").mapM parseRestart) with
+    | some rs => ({ store := [], world := mkWorld rs, done := [] }, "ok")
+    | none => (s, "bad-op")
+  | ["callx", skipLast, req, its, rl, restart, split, usechk] =>
+    match (if req == "-" then some [] else (req.splitOn ";").mapM (fun s => nats s ",")), nats its ",", rl.toNat? with
+    | some req, some its, some rl =>
+      let c : CallX := { skipLast := skipLast == "1", req := req, its := its, rl := rl,
+                         restart := if restart == "-1" then none else restart.toNat?,
+                         split := split == "1", usechk := usechk == "1" }
+      let (res, done', store') := readDataX s.world s.done c s.store
+      let head := match res with
+        | some rows => "ok " ++ ";".intercalate (rows.map showRow)
+        | none => "err"
+      ({ s with store := store', done := done' },
+       head ++ " # " ++ showStore store' ++ " # " ++ ",".intercalate (done'.map toString)
+         ++ " # old=" ++ oldAgrees s.world done' c s.store res store')
+    | _, _, _ => (s, "bad-op")
+  | _ => (s, "bad-op")
 
-partial def loop (h : IO.FS.Stream) (store : Store Nat) : IO Unit := do
+partial def loop (h : IO.FS.Stream) (s : DState) : IO Unit := do
   let line ← h.getLine
   if line.isEmpty then return ()
-  let (store', out) := step store line
+  let (s', out) := step s line
   IO.println out
-  loop h store'
+  loop h s'
 
-def main : IO Unit := do loop (← IO.getStdin) []
+def main : IO Unit := do loop (← IO.getStdin) {}
